@@ -13,6 +13,9 @@ Not modelled (no influence on token boundaries, fusing or the tracked diagnostic
 parsing after a number/string token has been pushed (`lexNumber` after `lexRawNumber`,
 string escape values and `tokenmeta`), and all diagnostics other than the classes listed in
 `TokenStream.Diag`.
+
+Mirrors /repo at commit cb845bb5 (fixes d839c04c: lone backslash at EOF no longer panics;
+cb845bb5: unrecognised bytes are flushed after the main loop).
 -/
 import PCV.Model.Utf8
 import PCV.Model.TokenStream
@@ -270,9 +273,9 @@ def takeDigits (E : Env) (p : Nat → Bool) : Nat → Nat → Nat
 
 def simpleEscapes : List Nat := [110, 114, 116, 92, 39, 34, 97, 98, 102, 118, 63]
 
-/-- `lexStringContent` from cursor `c`: the new cursor, and whether it panicked.
-    The panic: a `\` that is the last byte of the file makes `errtoken.InvalidEscape.Diagnose`
-    evaluate `text[1]` on the one-byte escape text (`if len(text) < 2 {...}` lacks a `return`). -/
+/-- `lexStringContent` from cursor `c`: the new cursor, and whether it panicked (never, since
+    commit d839c04c: a `\` that is the last byte of the file only gets an "invalid escape" error;
+    the flag is kept so that `strContentPrefix` below documents the old behaviour). -/
 def strContent (E : Env) (c : Nat) : Nat × Bool :=
   match peekAt E c with
   | none => (c, false)
@@ -281,7 +284,7 @@ def strContent (E : Env) (c : Nat) : Nat × Bool :=
     if r ≠ 92 then (c1, false)
     else
       match peekAt E c1 with
-      | none => (c1, true)
+      | none => (c1, false)
       | some r2 =>
         let c2 := c1 + runeLen r2
         if simpleEscapes.contains r2 then (c2, false)
@@ -290,6 +293,19 @@ def strContent (E : Env) (c : Nat) : Nat × Bool :=
         else if r2 = 117 then (takeDigits E isHex 4 c2, false)
         else if r2 = 85 then (takeDigits E isHex 8 c2, false)
         else (c2, false)
+
+/-- `lexStringContent` before the fix d839c04c: a `\` as the last byte of the file made
+    `errtoken.InvalidEscape.Diagnose` evaluate `text[1]` on the one-byte escape text (the
+    `if len(text) < 2 {...}` lacked a `return`): a panic, i.e. a lexer ICE. Documentation only. -/
+def strContentPrefix (E : Env) (c : Nat) : Nat × Bool :=
+  match peekAt E c with
+  | none => (c, false)
+  | some r =>
+    if r ≠ 92 then (c + runeLen r, false)
+    else
+      match peekAt E (c + runeLen r) with
+      | none => (c + runeLen r, true)
+      | some _ => strContent E c
 
 /-- the `for !l.done()` loop of `lexString`: (cursor, terminated, panicked) -/
 def strLoop (E : Env) (quote : Bytes) : Nat → Nat → Nat × Bool × Bool
@@ -511,19 +527,28 @@ deriving Repr
 def finish (s : LS) (st : Status) : LexResult :=
   { toks := s.toks.reverse, diags := s.diags.reverse, status := st, final := s }
 
-def lex (E : Env) : LexResult :=
+/-- the whole lexer; `finalFlush` = `l.flushUnrecognized()` is called after the main loop
+    (commit cb845bb5). `final` is the state handed to `fuseBraces`. -/
+def lexCore (finalFlush : Bool) (E : Env) : LexResult :=
   match prelude E {} with
   | (s0, false) => finish s0 .abort
   | (s0, true) =>
     match mainLoop E (E.n + 1) (-1) s0 with
     | (s1, .done) =>
-      let (s2, bracePairs) := fuseBraces E.n s1
+      let s1f := if finalFlush then flush E.n s1 else s1
+      let (s2, bracePairs) := fuseBraces E.n s1f
       let ts := s2.toks.reverse
       let (ts1, p1) := fuseAll ts bracePairs
       let (ts2, p2) := fuseAll ts1 (strRuns ts1 1 none)
       if s2.overflow ∨ p1 ∨ p2 then
-        { toks := ts2, diags := (iceDiag s2.cursor :: s2.diags).reverse, status := .icePanic, final := s1 }
-      else { toks := ts2, diags := s2.diags.reverse, status := .done, final := s1 }
+        { toks := ts2, diags := (iceDiag s2.cursor :: s2.diags).reverse, status := .icePanic, final := s1f }
+      else { toks := ts2, diags := s2.diags.reverse, status := .done, final := s1f }
     | (s1, st) => finish (addDiag s1 (iceDiag s1.cursor)) st
+
+/-- `Lexer.Lex` as it is in /repo -/
+def lex (E : Env) : LexResult := lexCore true E
+
+/-- the lexer before cb845bb5: nothing flushed `badBytes` after the main loop. Documentation only. -/
+def lexPrefix (E : Env) : LexResult := lexCore false E
 
 end PCV.XLexer
